@@ -61,11 +61,14 @@ def run(prop, tier, seed):
         "chunkings_from_tlc_graph": out["chunkings_from_graph"],
         "distinct_content_result_pairs_validated_by_tlc": out["records"],
         "with_displaced_cursor": out["with_displaced_cursor"],
+        "failing_reader_error_reported": out["failing_reader_error_reported"],
+        "failing_reader_value_returned_and_judged": out["failing_reader_value_returned"],
         "constants": t,
         "tlc_invariants": ["ChunkingIrrelevant", "PrefixSum"],
         "exhaustive": True,
         "rule": "every chunking (composition into chunks of 1..K bytes) of every length 0..N from the TLC graph of MC_Checksum, on the spec's pattern content and on seeded random "
                 "content; seeded random contents/chunkings of length < 40; lengths 8188..8197 and 16380..16389 with chunk plans {whole, 8191, 8193, 1..9 cyclic, 3, ...}; "
+                "every chunking of the lengths <= 7 also behind a reader whose j-th read fails (every j; Interrupted / Other): an Ok result is judged against Sum of the whole content (Checksum!Contract); "
                 "each distinct (content, result) pair is a trace record judged by TLC against Sum in Checksum.tla; Null checksum must be 0",
     }
     c.assumptions = ["TLC evaluates Sum with two 16-bit lanes (exact below 32768 words)", "the scripted reader returns exactly the planned chunk sizes (BufReader caps them at 8192)"]
@@ -89,7 +92,10 @@ def replay(prop, path, seed):
     # a graph with the single recorded chunking
     n = len(rec["bytes"])
     edges, pos = [], 0
-    for k in rec["reads"]:
+    reads = [k for k in rec["reads"] if k > 0]      # (a 0 marks a record of a failing reader: the reads before the failure)
+    if sum(reads) < n:
+        reads.append(n - sum(reads))
+    for k in reads:
         edges.append([n, pos, k])
         pos += k
     with open(gpath, "w") as f:
